@@ -71,6 +71,10 @@ pub enum HistOp
     },
     RunCheck,
     RunEdit(Plan),
+    /// edit run with the plan AND TMPDIR really on another filesystem
+    RunEditCrossFs(Plan),
+    /// the developer saves the configuration file again (same content, newer timestamp)
+    TouchConfig,
 }
 
 #[derive(Clone, Debug, PartialEq, Eq, Hash, Serialize, Deserialize)]
@@ -104,6 +108,8 @@ fn hist_op() -> BoxedStrategy<HistOp>
         2 => (any::<u16>(), any::<u16>()).prop_map(|(which, to_file)| HistOp::MoveStmt { which, to_file }),
         1 => Just(HistOp::RunCheck),
         6 => plan().prop_map(HistOp::RunEdit),
+        1 => plan().prop_map(HistOp::RunEditCrossFs),
+        1 => Just(HistOp::TouchConfig),
     ]
     .boxed()
 }
@@ -268,6 +274,7 @@ pub fn check(h: &History) -> CaseOutcome
     // ghost map: id -> uid
     let mut ghost: BTreeMap<u128, u32> = BTreeMap::new();
     let mut log: Vec<String> = Vec::new();
+    let mut touches: i64 = 0;
     let mut armed = false; // a faulted edit that inserted, or deletion of the current maximum, happened
     let mut nontrivial = false;
     let mut observe = |w: &World, ghost: &mut BTreeMap<u128, u32>, o: &mut CaseOutcome, log: &Vec<String>, step: usize| -> usize {
@@ -435,8 +442,29 @@ pub fn check(h: &History) -> CaseOutcome
                 }
                 log.push(format!("{}: run --check -> {}", step, r.exit.describe()));
             },
-            HistOp::RunEdit(p) =>
+            HistOp::TouchConfig =>
             {
+                touches += 1;
+                let cpath = w.sb.proj().join("Breadlog.yaml");
+                if let Ok(md) = std::fs::metadata(&cpath)
+                {
+                    use std::os::unix::fs::MetadataExt;
+                    let t = libc::timespec {
+                        tv_sec: md.mtime() + 100 * touches,
+                        tv_nsec: 0,
+                    };
+                    let times = [t, t];
+                    let c = std::ffi::CString::new(cpath.to_string_lossy().as_bytes()).unwrap();
+                    unsafe {
+                        libc::utimensat(libc::AT_FDCWD, c.as_ptr(), times.as_ptr(), 0);
+                    }
+                }
+                o.class("config-file-touched");
+                log.push(format!("{}: developer saves Breadlog.yaml again (timestamp +{} s)", step, 100 * touches));
+            },
+            HistOp::RunEdit(p) | HistOp::RunEditCrossFs(p) =>
+            {
+                let force_cross = matches!(op, HistOp::RunEditCrossFs(_));
                 // map the plan onto the op count of a recording run on a copy
                 let plan_str = match p
                 {
@@ -478,7 +506,7 @@ pub fn check(h: &History) -> CaseOutcome
                         }
                     },
                 };
-                let cross = if matches!(p, Plan::CrossFs)
+                let cross = if matches!(p, Plan::CrossFs) || force_cross
                 {
                     let base = build_dir().join("work");
                     let _ = std::fs::create_dir_all(&base);
@@ -488,8 +516,17 @@ pub fn check(h: &History) -> CaseOutcome
                 {
                     None
                 };
-                let r = run_in_tmp(&w.sb, false, plan_str.clone(), cross.as_ref().map(|c| c.root.clone()));
-                let plan_str = if cross.is_some() { Some("TMPDIR on another filesystem".to_string()) } else { plan_str };
+                let raw_plan = plan_str.clone();
+                let r = run_in_tmp(&w.sb, false, raw_plan.clone(), cross.as_ref().map(|c| c.root.clone()));
+                let plan_str = if cross.is_some()
+                {
+                    Some(format!("{} with TMPDIR on another filesystem", plan_str.clone().unwrap_or_else(|| "no fault".into())))
+                }
+                else
+                {
+                    plan_str
+                };
+
                 o.evals += 1;
                 if r.exit == Exit::Timeout
                 {
@@ -539,8 +576,38 @@ pub fn check(h: &History) -> CaseOutcome
                                 );
                             }
                         },
-                        Some(None) => o.class("lock-unparsable-after-run"),
-                        None => o.class("lock-absent-after-run"),
+                        // IDs have been written (now or earlier): the lock must exist and be readable
+                        Some(None) =>
+                        {
+                            o.class("lock-unparsable-after-run");
+                            o.fail(
+                                "lock-unreadable-after-ids-written",
+                                format!(
+                                    "step {}: after the edit run ({}; {}) Breadlog.lock does not parse ({:?}) although ID {} has been written\nhistory so far:\n  {}",
+                                    step,
+                                    plan_str.clone().unwrap_or_else(|| "no fault".into()),
+                                    r.exit.describe(),
+                                    lock.as_deref().map(|l| crate::engine::truncate(l, 80)),
+                                    maxg,
+                                    log.join("\n  ")
+                                ),
+                            );
+                        },
+                        None =>
+                        {
+                            o.class("lock-absent-after-run");
+                            o.fail(
+                                "lock-absent-after-ids-written",
+                                format!(
+                                    "step {}: after the edit run ({}; {}) there is no Breadlog.lock although ID {} has been written\nhistory so far:\n  {}",
+                                    step,
+                                    plan_str.clone().unwrap_or_else(|| "no fault".into()),
+                                    r.exit.describe(),
+                                    maxg,
+                                    log.join("\n  ")
+                                ),
+                            );
+                        },
                     }
                 }
             },
@@ -557,7 +624,7 @@ pub fn run(env: &Env, rec: &Recorder) -> (String, Vec<&'static str>)
 {
     pbt_opts(env, rec, "histories", env.cases(1500, 30000), 300, &strategy, &check);
     (
-        "histories of 4-25 operations over a project of 1-4+ files with the lock in use and never touched by the developer: add statement / delete statement (biased to the highest ID) / move a statement with its ID to another file / add file / delete file / --check / edit run carrying a fault plan (none 50 %, one or two injected I/O failures, SIGTERM/SIGINT, SIGKILL, or TMPDIR really on another filesystem; positioned by a fraction mapped onto the operation count of a recording run on a copy). Ghost map ID -> statement identity (unique marker in each message); after every run the harness's own scanner reads the tree: an ID seen with a different statement than before is a reuse; after every edit run, however it ended, a parsable lock must be ahead of every ID ever written; --check must change nothing. Non-trivial = distinct history where a faulted/interrupted edit that inserted IDs, or the deletion of the statement with the highest ID, is followed by a later edit that inserts IDs".to_string(),
-        vec!["developer copy/paste of a statement together with its ID is not generated (duplicates not caused by the tool)", "the developer never edits or deletes Breadlog.lock", "an absent or unparsable lock is judged through the reuse oracle on later steps, not directly"],
+        "histories of 4-25 operations over a project of 1-4+ files with the lock in use and never touched by the developer: add statement / delete statement (biased to the highest ID) / move a statement with its ID to another file / add file / delete file / save the configuration file again (newer timestamp) / --check / edit run carrying a fault plan (none 50 %, one or two injected I/O failures, SIGTERM/SIGINT, SIGKILL, or TMPDIR really on another filesystem, also combined with a fault plan; positioned by a fraction mapped onto the operation count of a recording run on a copy). Ghost map ID -> statement identity (unique marker in each message); after every run the harness's own scanner reads the tree: an ID seen with a different statement than before is a reuse; after every edit run, however it ended, a parsable lock must be ahead of every ID ever written; --check must change nothing. Non-trivial = distinct history where a faulted/interrupted edit that inserted IDs, or the deletion of the statement with the highest ID, is followed by a later edit that inserts IDs".to_string(),
+        vec!["developer copy/paste of a statement together with its ID is not generated (duplicates not caused by the tool)", "the developer never edits or deletes Breadlog.lock", "once any ID has been written the lock file must exist, parse and be ahead of every ID ever written (the tool itself creates it before it modifies the first file)"],
     )
 }
